@@ -13,7 +13,7 @@ import (
 
 func init() {
 	register(&Prop{ID: "C06", Run: runC06, MinNontrivial: 500,
-		Rule:        "cases = IdP-signed responses whose first assertion carries 0-4 AudienceRestrictions x 0-4 Audiences each drawn from {exact, case variant, trailing slash, space-padded, prefix, unrelated, empty}, OneTimeUse present/absent, ProxyRestriction absent or Count in {absent,0,1,7,2^31-1} x 0-3 audiences; configured audience in {URI, URI/, \"\"}; later assertions carry opposite conditions to show only the first counts; oracle: NotInAudience iff some restriction has no Audience byte-equal to the configured URI, OneTimeUse iff the element is present, ProxyRestriction summary equals the signed Count and Audience list or is nil; non-trivial = accepted and summarised; distinct by the conditions tuple; configured audiences containing list/pattern/URL metacharacters with Audiences that are pieces, supersets or decoded forms of them; first assertions without an AuthnStatement; Audiences near the configured value (percent-encoded, entity-escaped, ...) or equal to another configured field; foreign-namespace Audience look-alikes; a second Conditions element; Audience values interrupted by a processing instruction; empty or inverted Conditions windows; Count literals at and beyond the int64 / uint64 limits, signed, zero-padded; calls of the metadata and request builders on the provider before validating; a restriction whose single value is the previous restriction's values joined by a separator; 60-140 restrictions with an unsatisfied one near the end",
+		Rule:        "cases = IdP-signed responses whose first assertion carries 0-4 AudienceRestrictions x 0-4 Audiences each drawn from {exact, case variant, trailing slash, space-padded, prefix, unrelated, empty}, OneTimeUse present/absent, ProxyRestriction absent or Count in {absent,0,1,7,2^31-1} x 0-3 audiences; configured audience in {URI, URI/, \"\"}; later assertions carry opposite conditions to show only the first counts; oracle: NotInAudience iff some restriction has no Audience byte-equal to the configured URI, OneTimeUse iff the element is present, ProxyRestriction summary equals the signed Count and Audience list or is nil; non-trivial = accepted and summarised; distinct by the conditions tuple; configured audiences containing list/pattern/URL metacharacters with Audiences that are pieces, supersets or decoded forms of them; first assertions without an AuthnStatement; Audiences near the configured value (percent-encoded, entity-escaped, ...) or equal to another configured field; foreign-namespace Audience look-alikes; a second Conditions element; Audience values interrupted by a processing instruction; empty or inverted Conditions windows; Count literals at and beyond the int64 / uint64 limits, signed, zero-padded (never octal), spelled with the base prefixes / digit grouping of programming languages; calls of the metadata and request builders on the provider before validating; a restriction whose single value is the previous restriction's values joined by a separator; 60-140 restrictions with an unsatisfied one near the end",
 		Assumptions: []string{"comparison is byte equality on the decoded text", "the warning is about the first assertion only (as the property states)"}})
 }
 
@@ -216,7 +216,10 @@ func runC06(c *mon.Ctx) {
 			if r.IntN(4) == 0 {
 				// other integer literals: the largest int64 and what lies beyond, signs, leading zeros, blanks
 				p.Count = sim.S(pick(r, []string{"9223372036854775807", "9223372036854775808", "18446744073709551615", "18446744073709551616", "4294967296", "4294967295",
-					"-1", "-9223372036854775808", "-9223372036854775809", "007", "+7", " 7 ", "00000000000000000000001", "99999999999999999999999999"}))
+					"-1", "-9223372036854775808", "-9223372036854775809", "007", "+7", " 7 ", "00000000000000000000001", "99999999999999999999999999",
+					// decimal is the only base of xs:nonNegativeInteger: leading zeros do not make a literal octal, and the
+					// prefixed / grouped forms of programming languages are no integers at all (accepted, they would have to read 0)
+					"010", "0777", "0100", "012", "08", "-010", "0x10", "0X1F", "0b11", "0o17", "1_0", "1e3", "1.0", "0x", "١٢"}))
 				oddCount = true
 			}
 			for j := r.IntN(4); j > 0; j-- {
